@@ -189,6 +189,10 @@ def obligations_of(meta):
     for f in meta['functions']:
         obs.append(dict(id='%s/%s/safety' % (_base(uname), f['id']), tags=f['tags'], kind='safety',
                         start=f['start'], end=f['end'], scope=f['id']))
+        if f.get('ctags') is not None and f.get('idents') is not None and 'closure-contract' not in [r['label'] for r in meta['regions'] if r['scope'] == f['id']]:
+            # a closure's own postcondition (spliced inline, so it has no line region): its own obligation
+            obs.append(dict(id='%s/%s/closure-contract' % (_base(uname), f['id']), tags=f['ctags'], kind='closure',
+                            start=-1, end=-1, scope=f['id']))
     return obs
 
 
@@ -234,6 +238,10 @@ def attribute(meta, result):
                         break
                 if hit:
                     break
+            if hit is not None and 'post-condition of closure' in low:
+                cc = [o for o in obs if o['kind'] == 'closure' and o['scope'] == hit['scope']]
+                if cc:
+                    hit = cc[0]
         if not is_smt:
             a.fatal.append(msg + _where(d))
             continue
